@@ -597,7 +597,171 @@ theorem claim_transfer_encoded {s s' : Cw4Stake.State} {blk : Block} {snd : Addr
   simp only [List.map_cons, List.map_nil, Cw4Stake.payout]
   split <;> simp_all [wireOfStake]
 
-/-! ## cw20 `Transfer` / `TransferFrom` (encoders) -/
+/-! ## cw20 `Transfer` / `TransferFrom` -/
+
+private theorem xfer_recipient (acc : XferAcc) (s : String) (rest : Bytes) (ha : acc.recipient = none) :
+    xferFieldValue acc "recipient" (encStr s ++ rest) = .ok ({ acc with recipient := some s }, rest) := by
+  simp [xferFieldValue, ha, parseStringValue_encStr]
+
+private theorem xfer_amount (acc : XferAcc) (n : Nat) (rest : Bytes) (ha : acc.amount = none) (h : n < 2 ^ 128) :
+    xferFieldValue acc "amount" (amountTok n ++ rest) = .ok ({ acc with amount := some n }, rest) := by
+  simp [xferFieldValue, ha, parseAmountValue_amountTok n rest h]
+
+/-- the struct of the variant `Transfer` is read back, whatever follows its closing brace -/
+theorem parseTransferBody_encode (t : Transfer) (h : t.amount < 2 ^ 128) (rest : Bytes) :
+    parseTransferBody (encodeTransferBody t ++ rest) = .ok (t, rest) := by
+  obtain ⟨_, _, k3, _, k5⟩ := keys_escape3
+  obtain ⟨r, a⟩ := t
+  unfold parseTransferBody
+  simp only [encodeTransferBody, List.cons_append, List.append_assoc]
+  rw [skipWs_cons _ _ (by decide)]
+  simp only [if_true, k3, k5]
+  rw [parseObj_first _ _ _ _ _ _ _ (xfer_recipient _ r _ rfl)]
+  rw [parseObj_next _ _ _ _ _ _ _ (xfer_amount _ a _ rfl h)]
+  simp only [List.cons_append, List.nil_append]
+  rw [parseObj_end]
+  simp [endMap_close]
+
+theorem encodeTransfer_eq (r : String) (a : Nat) :
+    encodeTransfer r a = 0x7b :: (field keyTransfer (encodeTransferBody ⟨r, a⟩) ++ [0x7d]) := rfl
+
+/-- **decode_encode_transfer**: what `to_json_binary(&Cw20ExecuteMsg::Transfer { recipient, amount })` writes, the
+token contract's `from_json::<Cw20ExecuteMsg>` reads back as `Transfer` with the same recipient and amount — for
+every recipient text and every amount below 2^128. -/
+theorem decode_encode_transfer (r : String) (a : Nat) (h : a < 2 ^ 128) :
+    decodeTransfer (encodeTransfer r a) = .ok ⟨r, a⟩ := by
+  obtain ⟨k1, _⟩ := keys_escape3
+  unfold decodeTransfer
+  rw [encodeTransfer_eq, k1]
+  exact decodeNewtypeVariant_encode "transfer" parseTransferBody _ _ (parseTransferBody_encode ⟨r, a⟩ h [0x7d])
+
+/-- **encodeTransfer_injective**: another recipient or another amount, other bytes. -/
+theorem encodeTransfer_injective (r r' : String) (a a' : Nat) (ha : a < 2 ^ 128) (ha' : a' < 2 ^ 128)
+    (h : encodeTransfer r a = encodeTransfer r' a') : r = r' ∧ a = a' := by
+  have h1 := decode_encode_transfer r a ha
+  rw [h, decode_encode_transfer r' a' ha'] at h1
+  injection h1 with h1
+  injection h1 with h2 h3
+  exact ⟨h2.symm, h3.symm⟩
+
+/-- the bytes of a `Transfer` payload are valid UTF-8 -/
+theorem isText_encodeTransfer (r : String) (a : Nat) : IsText (encodeTransfer r a) := by
+  have hc : IsText [0x2c] := isText_ascii _ (by decide)
+  have hb : IsText [0x7d] := isText_ascii _ (by decide)
+  have ho : IsText [0x7b] := isText_ascii _ (by decide)
+  have cons : ∀ (b : UInt8) (l : Bytes), b :: l = [b] ++ l := fun _ _ => rfl
+  have hbody : IsText (encodeTransferBody ⟨r, a⟩) := by
+    unfold encodeTransferBody
+    rw [cons 0x7b, cons 0x2c]
+    exact IsText.append ho (IsText.append (isText_field _ _ (by decide) (isText_encStr _)) (IsText.append hc
+      (IsText.append (isText_field _ _ (by decide) (isText_amountTok _)) hb)))
+  rw [encodeTransfer_eq, cons 0x7b]
+  exact IsText.append ho (IsText.append (isText_field _ _ (by decide) hbody) hb)
+
+/-- **encodeTransfer_envelope**: the bytes are exactly `{"transfer":` + the struct + `}` — one outer key, the variant
+name in snake_case. -/
+theorem encodeTransfer_envelope (r : String) (a : Nat) :
+    encodeTransfer r a = strBytes "{\"transfer\":" ++ encodeTransferBody ⟨r, a⟩ ++ strBytes "}" := by
+  have h1 : strBytes "{\"transfer\":" = 0x7b :: 0x22 :: (keyTransfer ++ [0x22, 0x3a]) := by decide
+  have h2 : strBytes "}" = [0x7d] := by decide
+  rw [h1, h2, encodeTransfer_eq]; simp [field]
+
+private theorem xferFrom_owner (acc : XferFromAcc) (s : String) (rest : Bytes) (ha : acc.owner = none) :
+    xferFromFieldValue acc "owner" (encStr s ++ rest) = .ok ({ acc with owner := some s }, rest) := by
+  simp [xferFromFieldValue, ha, parseStringValue_encStr]
+
+private theorem xferFrom_recipient (acc : XferFromAcc) (s : String) (rest : Bytes) (ha : acc.recipient = none) :
+    xferFromFieldValue acc "recipient" (encStr s ++ rest) = .ok ({ acc with recipient := some s }, rest) := by
+  simp [xferFromFieldValue, ha, parseStringValue_encStr]
+
+private theorem xferFrom_amount (acc : XferFromAcc) (n : Nat) (rest : Bytes) (ha : acc.amount = none) (h : n < 2 ^ 128) :
+    xferFromFieldValue acc "amount" (amountTok n ++ rest) = .ok ({ acc with amount := some n }, rest) := by
+  simp [xferFromFieldValue, ha, parseAmountValue_amountTok n rest h]
+
+/-- the struct of the variant `TransferFrom` is read back, whatever follows its closing brace -/
+theorem parseTransferFromBody_encode (t : TransferFrom) (h : t.amount < 2 ^ 128) (rest : Bytes) :
+    parseTransferFromBody (encodeTransferFromBody t ++ rest) = .ok (t, rest) := by
+  obtain ⟨_, _, k3, k4, k5⟩ := keys_escape3
+  obtain ⟨o, r, a⟩ := t
+  unfold parseTransferFromBody
+  simp only [encodeTransferFromBody, List.cons_append, List.append_assoc]
+  rw [skipWs_cons _ _ (by decide)]
+  simp only [if_true, k3, k4, k5]
+  rw [parseObj_first _ _ _ _ _ _ _ (xferFrom_owner _ o _ rfl)]
+  rw [parseObj_next _ _ _ _ _ _ _ (xferFrom_recipient _ r _ rfl)]
+  rw [parseObj_next _ _ _ _ _ _ _ (xferFrom_amount _ a _ rfl h)]
+  simp only [List.cons_append, List.nil_append]
+  rw [parseObj_end]
+  simp [endMap_close]
+
+theorem encodeTransferFrom_eq (o r : String) (a : Nat) :
+    encodeTransferFrom o r a = 0x7b :: (field keyTransferFrom (encodeTransferFromBody ⟨o, r, a⟩) ++ [0x7d]) := rfl
+
+/-- **decode_encode_transferFrom**: what `to_json_binary(&Cw20ExecuteMsg::TransferFrom { owner, recipient, amount })`
+writes, the token contract's `from_json::<Cw20ExecuteMsg>` reads back as `TransferFrom` with the same owner,
+recipient and amount — for every text and every amount below 2^128. -/
+theorem decode_encode_transferFrom (o r : String) (a : Nat) (h : a < 2 ^ 128) :
+    decodeTransferFrom (encodeTransferFrom o r a) = .ok ⟨o, r, a⟩ := by
+  obtain ⟨_, k2, _⟩ := keys_escape3
+  unfold decodeTransferFrom
+  rw [encodeTransferFrom_eq, k2]
+  exact decodeNewtypeVariant_encode "transfer_from" parseTransferFromBody _ _
+    (parseTransferFromBody_encode ⟨o, r, a⟩ h [0x7d])
+
+/-- **encodeTransferFrom_injective**: another owner, recipient or amount, other bytes. -/
+theorem encodeTransferFrom_injective (o o' r r' : String) (a a' : Nat) (ha : a < 2 ^ 128) (ha' : a' < 2 ^ 128)
+    (h : encodeTransferFrom o r a = encodeTransferFrom o' r' a') : o = o' ∧ r = r' ∧ a = a' := by
+  have h1 := decode_encode_transferFrom o r a ha
+  rw [h, decode_encode_transferFrom o' r' a' ha'] at h1
+  injection h1 with h1
+  injection h1 with h2 h3 h4
+  exact ⟨h2.symm, h3.symm, h4.symm⟩
+
+/-- the bytes of a `TransferFrom` payload are valid UTF-8 -/
+theorem isText_encodeTransferFrom (o r : String) (a : Nat) : IsText (encodeTransferFrom o r a) := by
+  have hc : IsText [0x2c] := isText_ascii _ (by decide)
+  have hb : IsText [0x7d] := isText_ascii _ (by decide)
+  have ho : IsText [0x7b] := isText_ascii _ (by decide)
+  have cons : ∀ (b : UInt8) (l : Bytes), b :: l = [b] ++ l := fun _ _ => rfl
+  have hbody : IsText (encodeTransferFromBody ⟨o, r, a⟩) := by
+    unfold encodeTransferFromBody
+    rw [cons 0x7b, cons 0x2c, cons 0x2c]
+    exact IsText.append ho (IsText.append (isText_field _ _ (by decide) (isText_encStr _)) (IsText.append hc
+      (IsText.append (isText_field _ _ (by decide) (isText_encStr _)) (IsText.append hc
+        (IsText.append (isText_field _ _ (by decide) (isText_amountTok _)) hb)))))
+  rw [encodeTransferFrom_eq, cons 0x7b]
+  exact IsText.append ho (IsText.append (isText_field _ _ (by decide) hbody) hb)
+
+/-- **encodeTransferFrom_envelope**: the bytes are exactly `{"transfer_from":` + the struct + `}`. -/
+theorem encodeTransferFrom_envelope (o r : String) (a : Nat) :
+    encodeTransferFrom o r a = strBytes "{\"transfer_from\":" ++ encodeTransferFromBody ⟨o, r, a⟩ ++ strBytes "}" := by
+  have h1 : strBytes "{\"transfer_from\":" = 0x7b :: 0x22 :: (keyTransferFrom ++ [0x22, 0x3a]) := by decide
+  have h2 : strBytes "}" = [0x7d] := by decide
+  rw [h1, h2, encodeTransferFrom_eq]; simp [field]
+
+/-- **transfer_ne_transferFrom**: the two calls never have the same bytes, and neither is read as the other (the
+variant name `transfer` is not a prefix match: `transfer_from` is another identifier). -/
+theorem transfer_ne_transferFrom (r o r' : String) (a a' : Nat) :
+    encodeTransfer r a ≠ encodeTransferFrom o r' a' ∧
+    (decodeTransferFrom (encodeTransfer r a)).toOption = none ∧
+    (decodeTransfer (encodeTransferFrom o r' a')).toOption = none := by
+  obtain ⟨k1, k2, _⟩ := keys_escape3
+  have hd1 : (decodeTransferFrom (encodeTransfer r a)).toOption = none := by
+    unfold decodeTransferFrom decodeNewtypeVariant
+    rw [encodeTransfer_eq, skipWs_cons _ _ (by decide), k1]
+    simp only [field, List.cons_append, List.append_assoc, if_true, parseStringValue_key]
+    have : ("transfer" = "transfer_from") = False := by decide
+    simp [this, Except.toOption]
+  have hd2 : (decodeTransfer (encodeTransferFrom o r' a')).toOption = none := by
+    unfold decodeTransfer decodeNewtypeVariant
+    rw [encodeTransferFrom_eq, skipWs_cons _ _ (by decide), k2]
+    simp only [field, List.cons_append, List.append_assoc, if_true, parseStringValue_key]
+    have : ("transfer_from" = "transfer") = False := by decide
+    simp [this, Except.toOption]
+  refine ⟨fun h => ?_, hd1, hd2⟩
+  -- compare the bytes at position 10: `"` against `_`
+  have := congrArg (fun l => (l.drop 10).head?) h
+  simp [encodeTransfer, encodeTransferFrom, field, keyTransfer, keyTransferFrom] at this
 
 set_option maxRecDepth 1000000 in
 example : encodeTransfer "bob" 5 = strBytes "{\"transfer\":{\"recipient\":\"bob\",\"amount\":\"5\"}}" := by decide
